@@ -784,3 +784,9 @@ def check(rep):
     rule_longest_prefer(rep)
     rule_cardinality(rep)
     rule_gate(rep)
+    # keyword terminals take part in the order as strings; their rewrite must keep ignore_case etc.
+    from .C19 import rule_keyword_rewrite
+    from .C08 import rule_value_is_slice
+
+    rule_keyword_rewrite(rep, boundary=False)  # the \\b question belongs to C19 (known finding D11b)
+    rule_value_is_slice(rep)
